@@ -301,6 +301,11 @@ func c07Exec(ops []string, prop string) vResult {
 			return c15CrossSession(f)
 		}
 	}
+	if len(ops) == 1 && strings.HasPrefix(ops[0], "fbiso ") {
+		if f := vFields(ops[0]); len(f) == 3 {
+			return c07FallbackIsolation(f)
+		}
+	}
 	c := &c07Run{tags: map[string]bool{}, prop: prop}
 	var out []string
 	defer func() {
@@ -945,6 +950,9 @@ func c07PoolOp(r *rand.Rand) string {
 func c07Gen(r *rand.Rand, tier string, idx int, flavour string) []string {
 	if flavour == "C15" {
 		return c15Gen(r)
+	}
+	if flavour == "C07" && idx%400 == 13 {
+		return []string{fmt.Sprintf("fbiso %d %d", 6+r.Intn(5), 100+r.Intn(100))}
 	}
 	cfgs := [][]string{{"16:6"}, {"8:6", "32:4"}, {"16:4", "64:4"}, {"4:10"}}
 	cls := cfgs[r.Intn(len(cfgs))]
